@@ -259,22 +259,24 @@ def _class_bound(tree):
     return out
 
 
-def scope_problems(src):
+def scope_problems(src, mode='exec'):
     """('skip' | 'rejected' | 'ok' | 'bad', problems)"""
     import dis
-    from genshi.template.eval import Suite
+    from genshi.template.eval import Suite, Expression
+    if mode == 'eval':
+        src = src.strip()
     try:
-        ref = compile(src, '<reference>', 'exec')
+        ref = compile(src, '<reference>', mode)
     except (SyntaxError, ValueError, RecursionError, MemoryError):
         return 'skip', []
     try:
-        real = Suite(src).code
+        real = (Suite(src) if mode == 'exec' else Expression(src)).code
     except Exception:  # noqa: rejected
         return 'rejected', []
     problems = []
     skipped = []
     try:
-        cls_bound = _class_bound(ast.parse(src))
+        cls_bound = _class_bound(ast.parse(src, mode=mode))
     except (SyntaxError, ValueError, RecursionError):
         cls_bound = {}
 
